@@ -625,6 +625,7 @@ def _execute(trace, res, prop, program, meta, ops, solver, fs):
             if op["kw"] != kwc:
                 res.violate("C14", "C14/caller-kwargs-mutated@set_user_pf_options", "", oi)
             live.last_res = None
+            live.stored_sol = None   # a stored hydraulic solution belongs to the options it was computed with
             if op["reset"]:
                 user_model = {}
                 hyd_flag_model = None
